@@ -122,6 +122,18 @@ def run(flags, n, v, var=0):
 		resp.status = 200 if st200 else 404
 		resp.headers.clear()
 		resp.body = b''
+	elif (n + len(v) + var) % 4 == 2:
+		# the Response object answered an earlier exchange with a chunked stream; status, header fields and body are set anew
+		req0 = Request('GET', '/x', protocol=(1, 1))
+		resp.status = 200
+		resp.body = (piece for piece in [b'event 1\n', b'event 2\n'])
+		c0 = ComposedResponse(resp, req0)
+		c0.chunked = True
+		c0.prepare()
+		b''.join(c0)
+		resp.status = 200 if st200 else 404
+		resp.headers.clear()
+		resp.body = b''
 	if var % 5 == 4:
 		resp.headers['Content-Length'] = str(n + 7)      # a stale length left on the message: prepare() computes its own
 	# the representation is supplied in one of three ways: assigned, written (file position at the end), assigned and partly read
@@ -216,6 +228,10 @@ def oracle(case):
 		if f < l < n:
 			got = (st, bytes(resp.body) if st == 206 else None, resp.headers.get('Content-Length'), resp.headers.get('Content-Range'))
 			exp = (206, data[f:l + 1], str(l - f + 1), 'bytes %d-%d/%d' % (f, l, n))
+			if got == exp and 'Transfer-Encoding' not in resp.headers:
+				sent = b''.join(resp.body)      # what follows the header section when the message is sent
+				if sent != exp[1]:
+					return {'what': 'the 206 announces Content-Length %s and no transfer coding, but the body is sent as %d octets that are not the slice' % (got[2], len(sent)), 'range': v.decode(), 'n': n, 'sent': sent[:200].hex(), 'finding': None}
 			if got != exp:
 				return {'what': 'single range response is not exactly the requested slice', 'range': v.decode(), 'n': n, 'got': [got[0], got[1].hex() if got[1] is not None else None, got[2], got[3]],
 					'expected': [exp[0], exp[1].hex(), exp[2], exp[3]], 'finding': None}
@@ -234,6 +250,8 @@ def oracle(case):
 			except AssertionError as e:
 				return {'what': 'multipart/byteranges body is not well framed: %s' % (e,), 'range': v.decode(), 'n': n, 'finding': None}
 			exp = [(b'bytes %d-%d/%d' % (f, l, n), data[f:l + 1]) for f, l in rs]
+			if parts == exp and 'Transfer-Encoding' not in resp.headers and b''.join(resp.body) != bytes(resp.body):
+				return {'what': 'the multipart/byteranges 206 announces a Content-Length and no transfer coding, but the body is not sent as it is', 'range': v.decode(), 'n': n, 'finding': None}
 			if parts != exp or resp.headers.get('Content-Length') != str(len(bytes(resp.body))):
 				return {'what': 'multipart parts are not exactly the slices in ascending order', 'range': v.decode(), 'n': n, 'got': [(a.decode(), b.hex()) for a, b in parts], 'expected': [(a.decode(), b.hex()) for a, b in exp], 'finding': None}
 	return None
